@@ -506,6 +506,12 @@ func runC14(p *an.Prog, r *an.Run, tier string) {
 						return true
 					}
 				}
+				// a helper of the connection layer that waits inside (acquire a slot, take a token, ...)
+				if _, isGo := in.(*ssa.Go); !isGo {
+					if cal := c.Common().StaticCallee(); cal != nil && cal != hr && p.InRepo(cal) && cal.Pkg == serve.Pkg && calleeWaits(p, cal, 2) {
+						return true
+					}
+				}
 			}
 			return false
 		}
@@ -558,6 +564,15 @@ func runC14(p *an.Prog, r *an.Run, tier string) {
 		}
 	})
 	r.Check(len(rs) == 0, "reply-shape", an.FuncName(call), call.Pos(), "a reply lacking its Response part is refused", "%s", strings.Join(rs, "; "))
+
+	// ---- alias-escapes-lock (connection layer; the same rule runs repo-wide in C10)
+	checkAliasEscapesLock(p, r, "alias-escapes-lock", func(fn *ssa.Function) bool {
+		top := fn
+		for top.Parent() != nil {
+			top = top.Parent()
+		}
+		return top.Pkg != nil && strings.HasPrefix(top.Pkg.Pkg.Path(), pkgRPC)
+	})
 
 	// ---- no-block-under-lock for the connection layer
 	entry := p.EntryLocks()
@@ -682,4 +697,26 @@ func isOwnReceiver(fn *ssa.Function, v ssa.Value) bool {
 		}
 	})
 	return ok
+}
+
+// calleeWaits: fn (or a same-package static callee, to the given depth) contains a channel operation, blocking select,
+// sleep or WaitGroup wait — anything but codec I/O and handler dispatch.
+func calleeWaits(p *an.Prog, fn *ssa.Function, depth int) bool {
+	waits := false
+	for _, f := range an.WithAnon(fn) {
+		an.AllInstrs(f, func(in ssa.Instruction) {
+			if k := blockingKind(p, in); k != "" && !strings.HasPrefix(k, "codec/handler") && !strings.HasPrefix(k, "handler dispatch") && !strings.HasPrefix(k, "RPC call") {
+				waits = true
+			}
+			if c, ok := in.(ssa.CallInstruction); ok && depth > 0 {
+				if _, isGo := in.(*ssa.Go); isGo {
+					return
+				}
+				if cal := c.Common().StaticCallee(); cal != nil && cal != fn && p.InRepo(cal) && cal.Pkg == fn.Pkg && calleeWaits(p, cal, depth-1) {
+					waits = true
+				}
+			}
+		})
+	}
+	return waits
 }
